@@ -103,7 +103,6 @@ func (s *Sim) kSettle(p *corev1.Pod) bool {
 }
 
 func (s *Sim) kRestart(p *corev1.Pod, reason string) {
-	now := s.kubeletNow()
 	if len(p.Status.ContainerStatuses) == 0 {
 		return
 	}
@@ -112,7 +111,15 @@ func (s *Sim) kRestart(p *corev1.Pod, reason string) {
 	for _, x := range p.Status.ContainerStatuses {
 		total += int(x.RestartCount)
 	}
-	cs := &p.Status.ContainerStatuses[int(hash64(p.Name, fmt.Sprint(total))%uint64(len(p.Status.ContainerStatuses)))]
+	s.kRestartContainer(p, int(hash64(p.Name, fmt.Sprint(total))%uint64(len(p.Status.ContainerStatuses))), reason)
+}
+
+func (s *Sim) kRestartContainer(p *corev1.Pod, idx int, reason string) {
+	now := s.kubeletNow()
+	if idx >= len(p.Status.ContainerStatuses) {
+		return
+	}
+	cs := &p.Status.ContainerStatuses[idx]
 	cs.RestartCount++
 	cs.Ready = false
 	cs.LastTerminationState = corev1.ContainerState{Terminated: &corev1.ContainerStateTerminated{Reason: reason, ExitCode: 1, FinishedAt: now}}
